@@ -22,7 +22,7 @@
    assets.py.  For those classes the composition is decided per instance by the check: the independent formulation
    harness/ref.py is solved next to EAO and EAO's dispatch is checked inside it. *)
 From Coq Require Import QArith Qabs ZArith List String Bool Lia Lqa.
-From EAO Require Import Num LP Mapping Grid Assets StorageProofs Portfolio Ref Reference RefCorr.
+From EAO Require Import Num LP Mapping Grid Assets StorageProofs Portfolio Ref Reference RefCoarse RefCorr.
 Import ListNotations.
 Open Scope Q_scope.
 
@@ -196,11 +196,61 @@ Theorem C02_ext_transport_unit :
 Proof. exact ext_transport_unit_ok. Qed.
 Print Assumptions C02_ext_transport_unit.
 
-(* the boolean test the check evaluates on every generated portfolio (RefCorr.unit_hyps, names distinct) is enough for the
-   composition theorems to apply to the model of that portfolio *)
+(* assets on a coarser frequency.  Generic step: a unit whose mapping is extended to the minor steps of a coarse grid realises the
+   textbook object with the same admissible states and cost, its flows spread over the minor steps in proportion to their length *)
+Theorem C02_coarse_unit :
+  forall u gdt rg groups mp',
+  u_ok u -> rg_minor rg = Some groups -> NoDup (rg_I rg) -> extend_minor gdt rg (ap_map (u_prob u)) = Some mp' ->
+  u_ok {| u_name := u_name u; u_prob := {| ap_lp := ap_lp (u_prob u); ap_map := mp' |}; u_dec := u_dec u;
+          u_tb := tb_coarse (u_tb u) gdt rg groups |}.
+Proof. exact coarse_unit_ok. Qed.
+Print Assumptions C02_coarse_unit.
+
+(* instances: the model builders of SimpleContract, Transport and Storage on a coarse grid ARE the builders on the same steps read as
+   a fine grid, with the prices averaged over the minor steps (scattered back onto the grid), and the mapping extended *)
+Theorem C02_coarse_contract_builder :
+  forall g rg p a groups,
+  rg_minor rg = Some groups -> NoDup (rg_I rg) -> (forall i, In i (rg_I rg) -> (i < g_T g)%nat) -> List.length groups = rg_T rg ->
+  simple_contract g rg p = Some a ->
+  exists a0, simple_contract g (fine_rg rg) (fine_contract_p g rg p) = Some a0 /\
+             ap_lp a0 = ap_lp a /\ extend_minor (g_dt g) rg (ap_map a0) = Some (ap_map a).
+Proof. exact simple_contract_coarse. Qed.
+Print Assumptions C02_coarse_contract_builder.
+
+Theorem C02_coarse_transport_builder :
+  forall g rg p a groups,
+  rg_minor rg = Some groups -> NoDup (rg_I rg) -> (forall i, In i (rg_I rg) -> (i < g_T g)%nat) -> List.length groups = rg_T rg ->
+  g_T g <> 1%nat -> transport g rg p = Some a ->
+  exists a0, transport g (fine_rg rg) (fine_transport_p g rg p) = Some a0 /\
+             ap_lp a0 = ap_lp a /\ extend_minor (g_dt g) rg (ap_map a0) = Some (ap_map a).
+Proof. exact transport_coarse. Qed.
+Print Assumptions C02_coarse_transport_builder.
+
+Theorem C02_coarse_storage_builder :
+  forall g rg p a groups,
+  rg_minor rg = Some groups -> NoDup (rg_I rg) -> (forall i, In i (rg_I rg) -> (i < g_T g)%nat) -> List.length groups = rg_T rg ->
+  storage g rg p = Some a ->
+  exists a0, storage g (fine_rg rg) (fine_storage_p g rg p) = Some a0 /\
+             ap_lp a0 = ap_lp a /\ extend_minor (g_dt g) rg (ap_map a0) = Some (ap_map a).
+Proof. exact storage_coarse. Qed.
+Print Assumptions C02_coarse_storage_builder.
+
+(* the unit the check builds for an asset on a coarse grid carries exactly the problem of the model builder *)
+Theorem C02_coarse_unit_is_builder :
+  (forall g rg p un a, mk_unit_c g (USimple rg p) = Some un -> unit_hyps_c g (USimple rg p) = true -> simple_contract g rg p = Some a ->
+     ap_lp (u_prob un) = ap_lp a /\ ap_map (u_prob un) = ap_map a) /\
+  (forall g rg p un a, mk_unit_c g (UTransport rg p) = Some un -> unit_hyps_c g (UTransport rg p) = true -> transport g rg p = Some a ->
+     ap_lp (u_prob un) = ap_lp a /\ ap_map (u_prob un) = ap_map a) /\
+  (forall g rg p un a, mk_unit_c g (UStorage rg p) = Some un -> unit_hyps_c g (UStorage rg p) = true -> storage g rg p = Some a ->
+     ap_lp (u_prob un) = ap_lp a /\ ap_map (u_prob un) = ap_map a).
+Proof. exact (conj mk_unit_c_simple_is_builder (conj mk_unit_c_transport_is_builder mk_unit_c_storage_is_builder)). Qed.
+Print Assumptions C02_coarse_unit_is_builder.
+
+(* the boolean test the check evaluates on every generated portfolio (RefCorr.unit_hyps_c, names distinct) is enough for the
+   composition theorems to apply to the model of that portfolio (fine and coarse assets) *)
 Theorem C02_generated_portfolio_under_theorems :
   forall g us units,
-  seq_units (map (mk_unit g) us) = Some units -> forallb (unit_hyps g) us = true -> nodup_b (map u_name units) = true ->
+  seq_units (map (mk_unit_c g) us) = Some units -> forallb (unit_hyps_c g) us = true -> nodup_b (map u_name units) = true ->
   Forall u_ok units /\ NoDup (map u_name units).
 Proof. exact c02_hyps_sound. Qed.
 Print Assumptions C02_generated_portfolio_under_theorems.
@@ -241,6 +291,27 @@ Proof.
   - split.
     + apply in_boxb_0. vm_compute. reflexivity.
     + set (rows := lp_rows _). vm_compute in rows. subst rows. repeat (apply Forall_cons; [apply row_okb_0; vm_compute; reflexivity|]). apply Forall_nil.
+Qed.
+
+(* non-vacuity of the coarse instances: a contract and a storage on 2-hourly steps of an hourly grid pass the boolean test,
+   the units exist, and the extended mapping spreads a coarse flow of 3 over the two hours in equal parts *)
+Definition exg4 : grid := Build_grid [0; 3600; 7200; 10800; 14400]%Z 0%Z 14400%Z 3600%Z.
+Definition exrg4 : rgrid := match coarse exg4 [1; 1; 1; 1] [0; 7200; 14400]%Z with Some r => r | None => exrg end.
+Definition ex_cc : contract_p := Build_contract_p "cc" "A" (Some [10; 20; 30; 50]) (PConst (-5)) (PConst 5) (PConst 0).
+Definition ex_cs : storage_p := Build_storage_p "cs" ["A"]%string 4 2 2 0 0 0 0 (1#10) 1 0 (Some [1; 3; 2; 2]) false None.
+Example C02_coarse_nonvacuous :
+  forallb (unit_hyps_c exg4) [USimple exrg4 ex_cc; UStorage exrg4 ex_cs] = true /\
+  (exists un, mk_unit_c exg4 (USimple exrg4 ex_cc) = Some un /\ u_ok un /\
+              lp_c (ap_lp (u_prob un)) = [15; 40] /\
+              tb_flow (u_tb un) [3; -2] "A" 1 == 3 # 2 /\ tb_flow (u_tb un) [3; -2] "A" 2 == -1) /\
+  (exists un, mk_unit_c exg4 (UStorage exrg4 ex_cs) = Some un /\ u_ok un).
+Proof.
+  split; [vm_compute; reflexivity|]. split.
+  - destruct (mk_unit_c exg4 (USimple exrg4 ex_cc)) as [un|] eqn:E; [|vm_compute in E; discriminate].
+    exists un. split; [reflexivity|]. split; [apply (mk_unit_c_ok exg4 _ un E); vm_compute; reflexivity|].
+    vm_compute in E. inversion E; subst un. split; [reflexivity|]. split; vm_compute; reflexivity.
+  - destruct (mk_unit_c exg4 (UStorage exrg4 ex_cs)) as [un|] eqn:E; [|vm_compute in E; discriminate].
+    exists un. split; [reflexivity|]. apply (mk_unit_c_ok exg4 _ un E). vm_compute. reflexivity.
 Qed.
 
 (* non-vacuity *)
